@@ -67,4 +67,4 @@ def post_batch(tier, base_seed, results):
 
 
 def evidence(tier, results, counters):
-    return {}
+    return {"simulated_time": "not applicable: no clock or timer enters this property; progress is counted in sampler iterations (simulated_steps) and logged events"}
